@@ -74,7 +74,13 @@ func (s *Stream) Recv(msg any) error {
 			return Errorf("Message is too big. Max allowed size is %d bytes", s.max)
 		}
 		if read >= need {
-			return UnmarshalTTLV(buf[:need], msg)
+			err := UnmarshalTTLV(buf[:need], msg)
+			if err != nil && !IsErrEncoding(err) {
+				// The message has been read completely: whatever goes wrong now is a decoding
+				// failure, not an I/O one, and must be distinguishable as such.
+				err = ErrEncoding{cause: err}
+			}
+			return err
 		}
 	}
 }
